@@ -53,6 +53,22 @@ impl<'a> BlockFilterHashesProcess<'a> {
             .map(|item| item.to_entity())
             .collect::<Vec<_>>();
 
+        // The numbers and the hashes are sent by the peer, check them before any arithmetic.
+        if block_filter_hashes.is_empty() {
+            return StatusCode::BlockFilterHashesIsEmpty.into();
+        }
+        if start_number
+            .checked_add(block_filter_hashes.len() as BlockNumber)
+            .is_none()
+        {
+            let errmsg = format!(
+                "start number ({}) plus the count of block filter hashes ({}) overflows",
+                start_number,
+                block_filter_hashes.len()
+            );
+            return StatusCode::BlockFilterHashesIsUnexpected.with_context(errmsg);
+        }
+
         trace!(
             "peer {}: last-state: {}, add block filter hashes (start: {}, len: {}) \
             and parent block filter hash is {:#x}",
@@ -174,12 +190,15 @@ impl<'a> BlockFilterHashesProcess<'a> {
             // Update cached block filter hashes.
             let start_index = cached_hashes[index_offset..].len();
             let mut new_cached_hashes = cached_hashes;
+            // The message may be shorter than the cached hashes it overlaps, then nothing is new.
             if end_number > next_cached_check_point_number {
                 let excess_size = (end_number - next_cached_check_point_number) as usize;
                 let new_size = block_filter_hashes.len() - excess_size;
-                new_cached_hashes.extend_from_slice(&block_filter_hashes[start_index..new_size]);
-            } else {
-                new_cached_hashes.extend_from_slice(&block_filter_hashes[start_index..]);
+                if let Some(new_hashes) = block_filter_hashes.get(start_index..new_size) {
+                    new_cached_hashes.extend_from_slice(new_hashes);
+                }
+            } else if let Some(new_hashes) = block_filter_hashes.get(start_index..) {
+                new_cached_hashes.extend_from_slice(new_hashes);
             }
             self.protocol
                 .peers
